@@ -40,6 +40,8 @@ def case_key(obj) -> str:
 def worker(args):
     pid, tier, seed, n_examples, wall_budget, disabled_triggers = args
     t0 = time.time()
+    if os.environ.get("FV_TEST_ABORT_WORKER") == str(seed % 1000):
+        os.abort()  # self-test of the runner: a worker that dies natively must cost its own slice only
     out = {
         "evaluations": 0, "discarded": {}, "rejected": {}, "classes": {}, "nontrivial_keys": [],
         "failures": [], "samples": [], "error": None, "budget_skipped": 0, "counters": {},
@@ -103,6 +105,71 @@ def worker(args):
         out["error"] = f"{type(exc).__name__}: {exc}\n{traceback.format_exc()}"
     out["wall_s"] = time.time() - t0
     return out
+
+
+def _worker_entry(job, conn):
+    try:
+        conn.send(worker(job))
+    finally:
+        conn.close()
+
+
+def run_workers(jobs, wall):
+    """One process per job; a process that dies (the CP-SAT solver can abort the interpreter) or overstays
+    costs its own slice only. Returns (results of the reporting workers, exit codes of the others)."""
+    import multiprocessing as mp
+
+    ctx = mp.get_context("spawn")
+    procs = []
+    for job in jobs:
+        rx, tx = ctx.Pipe(duplex=False)
+        p = ctx.Process(target=_worker_entry, args=(job, tx), daemon=True)
+        p.start()
+        tx.close()
+        procs.append((p, rx))
+    hard_deadline = time.time() + wall + 900
+    results, died = [], []
+    pending = list(procs)
+    while pending:
+        progressed = False
+        for item in list(pending):
+            p, rx = item
+            got = None
+            try:
+                if rx.poll(0):
+                    got = rx.recv()
+            except (EOFError, OSError):
+                got = None
+                if not p.is_alive():
+                    pending.remove(item)
+                    died.append(p.exitcode)
+                    progressed = True
+                    continue
+            if got is not None:
+                results.append(got)
+                pending.remove(item)
+                progressed = True
+                p.join(10)
+                continue
+            if not p.is_alive():
+                try:
+                    if rx.poll(0.2):
+                        results.append(rx.recv())
+                    else:
+                        died.append(p.exitcode)
+                except (EOFError, OSError):
+                    died.append(p.exitcode)
+                pending.remove(item)
+                progressed = True
+            elif time.time() > hard_deadline:
+                p.terminate()
+                p.join(5)
+                died.append("timeout")
+                pending.remove(item)
+                progressed = True
+        if not progressed:
+            time.sleep(0.2)
+    return results, died
 
 
 # ------------------------------------------------------------------------------------------
@@ -261,11 +328,11 @@ def main(argv=None):
     per = max(1, total // workers)
     wall = budget.get("wall_s", 600)
     jobs = [(pid, tier, seed * 1000 + i, per, wall, disabled_triggers) for i in range(workers)]
-    import multiprocessing as mp
-
-    ctx = mp.get_context("spawn")
-    with ctx.Pool(workers) as pool:
-        results = pool.map(worker, jobs)
+    results, died = run_workers(jobs, wall)
+    if died:
+        # a worker process ended without reporting (native abort inside the layout solver, kill): its slice is lost, the
+        # run is not a verdict on anything it was doing - recorded, never a violation
+        print(f"NOTE: {len(died)} of {workers} worker processes ended without reporting (exit codes {sorted(set(died))}); their cases are not counted")
     errs = [r["error"] for r in results if r["error"]]
     if errs:
         print("HARNESS ERROR in worker:\n" + errs[0], file=sys.stderr)
@@ -331,6 +398,7 @@ def main(argv=None):
             "rejected_messages": dict(sorted(rejected.items(), key=lambda kv: -kv[1])[:12]),
             "excluded_by": {k[len("excluded_by:"):]: v for k, v in counters.items() if k.startswith("excluded_by:")},
             "unreproduced": unreproduced,
+            "workers_lost": [str(x) for x in died],
             "budget_skipped": budget_skipped,
             "failure_signatures": sig_counts,
             "known_findings": witness_info,
